@@ -424,6 +424,28 @@ def build(tier="quick", seed=0):
             return z3.And(it.zint(a["n"]) == x, it.zstr(a["s"]) == sv), "decoded n / s differ from the encoded values"
         return judge
 
+    # values with a structured wire form, decoded from a conforming stream into records of the normal class and of the class generated for types with a
+    # Python-keyword field name (another class template): every field holds a value of its declared type
+    STRUCT_FIELDS = {False: [("path", "p"), ("digest", "d"), ("command", "c"), ("path[]", "pl"), ("net.ipaddress", "a"), ("varint", "n")],
+                     True: [("path", "from"), ("digest", "class"), ("command", "import"), ("path[]", "in"), ("net.ipaddress", "is"), ("varint", "n")]}
+    for kw in (False, True):
+        name = f"C02.unpack[record with structured values, {'a type with keyword field names' if kw else 'ordinary field names'}]"
+
+        def th_struct(kw=kw):
+            fields = STRUCT_FIELDS[kw]
+            D = it.call(RD, ["c02/struct", list(fields)], {})
+            name_, h = ident(D)
+            md5 = bytes.fromhex("d41d8cd98f00b204e9800998ecf8427e")
+            vals = [W.arr(W.leaf("/a/b"), W.leaf(0)), W.arr(W.leaf(md5), W.leaf(None), W.leaf(None)), W.arr(W.arr(W.leaf("ls"), W.arr(W.leaf("-l"))), W.leaf(0)), W.arr(W.arr(W.leaf("c:\\x"), W.leaf(1))), ("leaf", SInt(x)), W.leaf(7),
+                    W.leaf(None), W.leaf(None), dt_tree(GEN), W.leaf(1)]
+            it.assume(z3.And(x >= 0, x < 2 ** 32))
+            o = unpack(packer_with(D), W.record_tree(blob, name_, h, vals))
+            kinds = [it.type_name(o.attrs[f]) for _, f in fields]
+            return kinds, it.unbase(it.getattr_(o.attrs[fields[1][1]], "md5")), [it.type_name(e) for e in o.attrs[fields[3][1]].base]
+
+        pack.add(Obligation(name, lambda tier, name=name, th_struct=th_struct: prove_paths(name, th_struct, lambda p: (p.value == (["posix_path", "digest", "posix_command", "path[]" if False else p.value[0][3], "ipaddress", "varint"], "d41d8cd98f00b204e9800998ecf8427e", ["windows_path"]), f"a conforming record frame was decoded to field values of the kinds {p.value!r}") if p.kind != "raise" else (False, f"unpack of a conforming record raised {exc_text(p)}"), lambda m_, p: {}, allow_raise=None),
+                            replay=lambda w, kw=kw: {"call": "c02_struct_decode", "args": {"kw": kw}}, functions=FU + ("flow.record.base:_generate_record_class",), mode="representative structured values, both class templates"))
+
     for nm, rng, inr in (("native int", INR, True), ("big positive int", x > W.INT_MAX, False), ("big negative int", x < W.INT_MIN, False)):
         name = f"C02.unpack[record, {nm}]"
         pack.add(Obligation(name, lambda tier, name=name, rng=rng, inr=inr: prove_paths(name, th_unpack_record(rng, inr=inr), judge_unpacked(), lambda m_, p: {"x": model_value(m_, x), "s": model_value(m_, sv)}, allow_raise=None),
